@@ -12,5 +12,6 @@ CONSTANTS Keys = {"a", "b"}
           DialSet = {"ok", "fail"}
           AllowClose = TRUE
           D = 5
+          Ops = {"Call", "Emit", "Dial", "End", "Cancel", "Drain", "Tick", "Close"}
 INVARIANTS GEmit GAllClosed
 CHECK_DEADLOCK FALSE
